@@ -162,6 +162,7 @@ inductive Call
   | dtor (ty : Ty) (d : Nat)
   | glob (k : GlobK) (e : Option Nat)
   | threadRun (d : Nat) (body : Bool) (key : Option Nat)
+  | lockCycle (d : Nat)
   deriving Repr
 
 def shmSize : Nat → Nat
@@ -296,6 +297,14 @@ def loaderBusy (env : Env) (k : CtorK) : Bool :=
   | .loaderNew _ => hasLoader env
   | _ => false
 
+/-- `lock_cycle d` works on several types; it acquires nothing -/
+def lockCycleTypes : List Ty := [.one .mutex, .one .rwlock, .rwg, .one .spin, .one .cond]
+
+def stepLockCycle (env : Env) (d : Nat) : ResM (Char × Env) :=
+  match env.get d with
+  | some o => return (if o.ty ∈ lockCycleTypes then 'S' else '-', env)
+  | none => skip env
+
 def stepCtor (env : Env) (k : CtorK) (d : Nat) (e : Option Nat) : ResM (Char × Env) :=
   if !env.isEmpty d then skip env else
   if loaderBusy env k then skip env else
@@ -381,6 +390,7 @@ def step (c : Call) (env : Env) : ResM (Char × Env) :=
     | .glob .fileRemoveMissing e | .glob .sockBad e => stepSetErr env e false
     | .glob .errSetP e => stepSetErr env e true
     | .threadRun d body key => stepThread env d body key
+    | .lockCycle d => stepLockCycle env d
     | _ => skip env
 
 /-! ## parsing call lines -/
@@ -511,30 +521,18 @@ def parseCall (toks : List String) : Option Call :=
   | ["loader_err", d] => do some (.ctor .loaderErr (← n d) none)
   | ["loader_free", d] => do some (.dtor .loader (← n d))
   | ["mmap_new", d, sz, e] => do some (.ctor (.mmapNew (((← n sz) + 1) * 4096)) (← n d) (← argOpt e))
-  | ["mmap_free", d, e] => do some (.mut .mmapFree .mmap (← n d) (← argOpt e))
+  | ["mmap_free", d] => do some (.dtor .mmap (← n d))
+  | ["lock_cycle", d] => do some (.lockCycle (← n d))
   | _ => none
-
-/-- `lock_cycle d` works on several types; it acquires nothing -/
-def lockCycleTypes : List Ty := [.one .mutex, .one .rwlock, .rwg, .one .spin, .one .cond]
 
 def splitToks (line : String) : List String := (line.splitOn " ").filter (· ≠ "")
 
 /-- run one call line: outcome class (`'?'` for an unknown line) and the new environment -/
 def runLine (line : String) (env : Env) : ResM (Char × Env) := do
   emit (.call line)
-  match splitToks line with
-  | ["lock_cycle", d] =>
-    match d.toNat? with
-    | none => return ('?', env)
-    | some d =>
-      if !env.lib.inited then return ('-', env) else
-      match env.get d with
-      | some o => return (if o.ty ∈ lockCycleTypes then 'S' else '-', env)
-      | none => return ('-', env)
-  | toks =>
-    match parseCall toks with
-    | none => return ('?', env)
-    | some c => step c env
+  match parseCall (splitToks line) with
+  | none => return ('?', env)
+  | some c => step c env
 
 /-- a sequence of (parsed) calls -/
 def runCalls : List Call → Env → ResM (List Char × Env)
